@@ -97,6 +97,7 @@ impl Space {
             "depth1" => (self.nlit1 * self.nlit1 * BINOPS.len() + self.nlit1 * UNOPS.len() + self.nlit1) as u64,
             "depth2" => (2 * BINOPS.len() * BINOPS.len() * self.nlit2 * self.nlit2 * self.nlit2 + UNOPS.len() * BINOPS.len() * self.nlit2 * self.nlit2) as u64,
             "shadow" => (6 * 6 * 6 * BINOPS.len()) as u64,
+            "neighbour" => NEIGHBOUR_CASES,
             "close" => (CLOSE.len() * 2 * BINOPS.len()) as u64,
             "suffix" => 5 * self.total("depth1"),
             _ => 0,
@@ -182,7 +183,8 @@ fn probes(k: usize, v: &str, kind: Kind) -> String {
     let mut s = format!("PRINT \"#{}\"\nPRINT {}\n", k, v);
     if kind == Kind::Num {
         // precision (SINGLE / DOUBLE), and INTEGER / LONG through overflow
-        s.push_str(&format!("PRINT {} / 3\nPRINT {} + 32767\nPRINT {} * 65536\n", v, v, v));
+        // (negative values: INTEGER / LONG / DOUBLE show in v - 32767 and v + v)
+        s.push_str(&format!("PRINT {} / 3\nPRINT {} + 32767\nPRINT {} * 65536\nPRINT {} - 32767\nPRINT {} + {}\n", v, v, v, v, v, v));
     } else {
         s.push_str(&format!("PRINT LEN({})\nPRINT {} + \"z\"\n", v, v));
     }
@@ -386,6 +388,62 @@ fn shadow_case(idx: u64) -> (String, String, String) {
     (a, b, format!("global X = {}, local X = {}, Y = X {} {}", g, l, op, c))
 }
 
+/// A module-level constant and, inside a subprogram, a variable with the same bare name and another kind of type
+/// suffix (a parameter, a DIM, an implicit variable, an array — introduced before or after the constant is used):
+/// the constant is still the constant. 80 cases.
+const NEIGHBOUR_CASES: u64 = 80;
+fn neighbour_case(idx: u64) -> (String, String, String) {
+    // (constant's name, its literal, a use that shows value and type, a derived constant, neighbour names)
+    let combos: [(&str, &str, &str, &str, &str, &str); 5] = [
+        ("K", "40", "PRINT K; K * 2; K / 3", "CONST H = K / 2", "K$", "\"nb\""),
+        ("K%", "40", "PRINT K%; K% * 2; K% / 3", "CONST H = K% / 2", "K$", "\"nb\""),
+        ("K$", "\"report\"", "PRINT K$; K$ + \"!\"; LEN(K$)", "CONST H = LEN(K$ + \"?\")", "K", "5"),
+        ("K$", "\"report\"", "PRINT K$; K$ + \"!\"; LEN(K$)", "CONST H = LEN(K$ + \"?\")", "K%", "5"),
+        ("K$", "\"report\"", "PRINT K$; K$ + \"!\"; LEN(K$)", "CONST H = LEN(K$ + \"?\")", "K#", "5"),
+    ];
+    let mut i = idx;
+    let (cname, lit, use_, derived, nb, nbval) = combos[(i % 5) as usize];
+    i /= 5;
+    let form = (i % 4) as usize;
+    i /= 4;
+    let in_function = i % 2 == 1;
+    let after = (i / 2) % 2 == 1;
+    let (intro, read) = match form {
+        0 => (String::new(), format!("PRINT {}", nb)),
+        1 => (format!("DIM {}\n{} = {}\n", nb, nb, nbval), format!("PRINT {}", nb)),
+        2 => (format!("{} = {}\n", nb, nbval), format!("PRINT {}", nb)),
+        _ => (format!("DIM {}(2)\n{}(1) = {}\n", nb, nb, nbval), format!("PRINT {}(1)", nb)),
+    };
+    let param = if form == 0 { nb.to_string() } else { "P".to_string() };
+    let arg = if form == 0 { nbval.to_string() } else { "7".to_string() };
+    let build = |inline: bool| -> String {
+        let sub_in_parens = |t: &str| -> String { if inline { t.replace(cname, &format!("({})", lit)) } else { t.to_string() } };
+        let mut body = String::new();
+        if !after {
+            body.push_str(&intro);
+        }
+        body.push_str(&sub_in_parens(use_));
+        body.push('\n');
+        body.push_str(&sub_in_parens(derived));
+        body.push_str("\nPRINT H\n");
+        if after {
+            body.push_str(&intro);
+        }
+        body.push_str(&read);
+        body.push('\n');
+        let head = format!("CONST {} = {}\n{}\n", cname, lit, sub_in_parens(use_));
+        if in_function {
+            format!("{}X = F({})\n{}\nEND\nFUNCTION F ({})\n{}F = 1\nEND FUNCTION\n", head, arg, sub_in_parens(use_), param, body)
+        } else {
+            format!("{}S {}\n{}\nEND\nSUB S ({})\n{}END SUB\n", head, arg, sub_in_parens(use_), param, body)
+        }
+    };
+    // the inlined form must not rewrite the CONST line itself
+    let a = build(false);
+    let b = build(true).replacen(&format!("CONST ({}) = {}", lit, lit), &format!("CONST {} = {}", cname, lit), 1);
+    (a, b, format!("constant {} = {}, in a {} the {} {} {}", cname, lit, if in_function { "FUNCTION" } else { "SUB" }, ["parameter", "variable declared by DIM", "implicit variable", "array"][form], nb, if form == 0 { "" } else if after { "(introduced after the constant is used)" } else { "(introduced before the constant is used)" }))
+}
+
 pub fn worker(case: &Value) -> Value {
     let g = case["g"].as_str().unwrap_or("");
     let quick = case["quick"].as_bool().unwrap_or(true);
@@ -445,9 +503,9 @@ pub fn worker(case: &Value) -> Value {
         }
         return json!({"n": n, "nontrivial": n, "hist": acc.hist, "bad": acc.bads, "sample": sample});
     }
-    if g == "shadow" {
+    if g == "shadow" || g == "neighbour" {
         for idx in lo..hi {
-            let (a, b, label) = shadow_case(idx);
+            let (a, b, label) = if g == "shadow" { shadow_case(idx) } else { neighbour_case(idx) };
             let oa = run(&a);
             let ob = run(&b);
             n += 1;
@@ -462,7 +520,7 @@ pub fn worker(case: &Value) -> Value {
             } else {
                 acc.bad(
                     g,
-                    "shadow",
+                    g,
                     format!("{}: CONST form prints {:?} / {}, inlined form prints {:?} / {}", label, oa.stdout_str(), oa.end.class(), ob.stdout_str(), ob.end.class()),
                     a,
                     json!({"g": g, "quick": quick, "lo": idx, "hi": idx + 1}),
@@ -495,7 +553,7 @@ pub fn drive(tier: &str) -> i32 {
     let space = Space::new(quick);
     let mut cases = vec![];
     let mut plan = vec![];
-    for g in ["shadow", "close", "suffix", "depth1", "depth2"] {
+    for g in ["shadow", "neighbour", "close", "suffix", "depth1", "depth2"] {
         let t = space.total(g);
         let chunk = 200;
         let mut lo = 0;
@@ -514,7 +572,7 @@ pub fn drive(tier: &str) -> i32 {
         run.capped = true;
     }
     let mut ev = Evidence::new("exploration");
-    ev.set("rule", "depth1: every literal, every unary operator on every literal and every binary operator (+ - * / MOD AND OR < <= = >= > <>) on every ordered pair of 20 operands of all five types (literals incl. 32767, 32768, 2147483647, 65536, 12345678.5#, empty string, and two named constants LO% = -32768 and LL& = -2147483648, the values no literal of their type can denote). depth2: every (a op1 b) op2 c, c op2 (a op1 b) and unary (a op1 b) over the first 5 (thorough 9) literals. For each expression e: PRINT (e) and typed probes ((e) / 3, (e) + 32767, (e) * 65536, LEN, + \"z\") are evaluated by the VM under an error trap; CONST c = e (plain, chained through an earlier constant, and inside a SUB) must make the same probes print the same lines; if evaluating (e) raises Overflow or Division by zero the CONST form must be rejected by the checker with that error, and ill-typed expressions must be rejected in both forms with the same error. close: every binary operator on 8 pairs of SINGLE / DOUBLE literals closer together than 0.00001 (one pair further apart), in both orders. suffix: CONST c<suffix> = e for every depth-1 expression and each of the five suffixes, referenced with and without the suffix, against v<suffix> = e (conversion to the suffix type; Overflow at the conversion must be a rejection). shadow: a global CONST X, a SUB redefining X and defining Y = X op c, against the inlined form.");
+    ev.set("rule", "depth1: every literal, every unary operator on every literal and every binary operator (+ - * / MOD AND OR < <= = >= > <>) on every ordered pair of 20 operands of all five types (literals incl. 32767, 32768, 2147483647, 65536, 12345678.5#, empty string, and two named constants LO% = -32768 and LL& = -2147483648, the values no literal of their type can denote). depth2: every (a op1 b) op2 c, c op2 (a op1 b) and unary (a op1 b) over the first 5 (thorough 9) literals. For each expression e: PRINT (e) and typed probes ((e) / 3, (e) + 32767, (e) * 65536, (e) - 32767, (e) + (e), LEN, + \"z\") are evaluated by the VM under an error trap; CONST c = e (plain, chained through an earlier constant, and inside a SUB) must make the same probes print the same lines; if evaluating (e) raises Overflow or Division by zero the CONST form must be rejected by the checker with that error, and ill-typed expressions must be rejected in both forms with the same error. close: every binary operator on 8 pairs of SINGLE / DOUBLE literals closer together than 0.00001 (one pair further apart), in both orders. suffix: CONST c<suffix> = e for every depth-1 expression and each of the five suffixes, referenced with and without the suffix, against v<suffix> = e (conversion to the suffix type; Overflow at the conversion must be a rejection). shadow: a global CONST X, a SUB redefining X and defining Y = X op c, against the inlined form. neighbour: a module-level constant (K, K%, K$) and, in a SUB / FUNCTION, a variable of the same bare name with another kind of suffix (parameter, DIM, implicit, array; introduced before or after the constant is used): the uses of the constant and a constant derived from it print what the inlined form prints (80 cases).");
     ev.set("exhaustive", !run.capped);
     ev.set("plan", json!(plan));
     ev.set("distinct_nontrivial", run.nontrivial);
